@@ -143,7 +143,7 @@ extern "C" void harness()
   }
   for (int step = 0; step < NCALLS; step++) {
     int op = nondet_int();
-    VASSUME(op >= 0 && op <= 9);
+    VASSUME(op >= 0 && op <= 10);
     bool threw = false;
     Model before = m;
     rec::gb_calls = 0; rec::ga_init_calls = 0; rec::op_calls = 0;
@@ -163,6 +163,11 @@ extern "C" void harness()
       case 6: { rec::gb_fail_next = nondet_int() & 1; rec::ga_fail_next = nondet_int() & 1; g.initialize(prng); break; }
       case 7: { event ev; g.shoot(prng, ev); break; }
       case 8: g.reset(); break;
+      case 10: { // the by-label alias of the mode setter: an unknown label means "undefined mode"
+                int k = nondet_int(); VASSUME(k >= 0 && k <= 2);
+                int md = k == 0 ? (int)DBDMODE_UNDEF : (k == 1 ? (int)DBDMODE_1 : (int)DBDMODE_4);
+                g.set_decay_dbd_mode_by_label(k == 0 ? std::string("no-such-mode") : dbd_mode_label((dbd_mode_type)md));
+                if (!m.init) m.mode = md; break; }
       default: g.set_decay_version("x"); break;
       }
     } catch (std::logic_error &) {
@@ -170,7 +175,7 @@ extern "C" void harness()
     }
     // ---------------- what the protocol says
     bool expect_throw = false;
-    if (op <= 5 || op == 9) {
+    if (op <= 5 || op == 9 || op == 10) {
       expect_throw = before.init || (op == 5 && m.nops == before.nops && !before.init && threw);
       if (op == 5 && !before.init) expect_throw = (m.nops == before.nops); // null operation
       if (before.init) m = before;
